@@ -51,7 +51,7 @@ def handleQuery (api : String) (qid : Nat) (edns : Int) (sz : Nat) (arg : Bytes)
   else if api == "aaaa96" then showBuilt sz (buildQuery sz arg qid typeAAAA edns)
   else if api.startsWith "host96:" then
     match (api.drop 7).toString.toNat? with
-    | some qt => if qt ≤ 65535 then showBuilt sz (buildQuery sz arg qid qt edns) else "bad-op"
+    | some qt => if qt ≤ 1000000 then showBuilt sz (buildQuery sz arg qid qt edns) else "bad-op"
     | none => "bad-op"
   else "bad-op"
 
